@@ -1,6 +1,17 @@
 // C06: BufferedFd / TcpConnection byte-stream preservation on a real loop + socketpair (engine H).
-// usage: harness hist <engine> <depth> <mode: bfd|tcp> <threshold> <policy> <max_deviations> [part nparts]
-//        harness bulk <engine>
+// usage: harness hist <engine> <depth> <mode: bfd|tcp> <threshold> <policy> <max_deviations> <part> <nparts> [cb=N] [ev=N] [bind=N]
+//          cb : behaviour of the user callbacks (re-entrant calls): 0 record only, 1 the first two send-complete callbacks send 2 bytes,
+//               2 the receive callback echoes (sends back) the bytes it consumed, 3 the first receive callback pauses the descriptor
+//               (BufferedFd::disable(), resumed by a later enable) / disconnects the connection (TcpConnection::disconnect())
+//          ev : events handed to BufferedFd::initialize(): 3 read+write (default), 1 kReadOnly, 2 kWriteOnly          (bfd mode only)
+//          bind=1 : the menu also offers bind(receiver)/unbind(); the receiver is a ByteStream of the harness that records what is forwarded
+//        harness bulk <engine>        large sends against real kernel back-pressure
+//        harness bulkrecv <engine>    large receives (callback / forwarding to a second real BufferedFd with a slow reader)
+//
+// Readings (DESIGN 1.7): the peer close is reported through the disconnected callback at TcpConnection level; at raw BufferedFd level the
+// harness disables the descriptor in its read-zero callback, as every in-tree user does. Bytes below the receive threshold stay buffered and
+// are not counted as lost. While a receiver is bound, received bytes go to the receiver instead of the callback (ByteStream::bind contract);
+// "delivered" below means consumed by the callback or forwarded to the receiver - one ordered stream, decided by the reference model only.
 #include "hist/hist.h"
 #include <tbox/event/loop.h>
 #include <tbox/event/fd_event.h>
@@ -26,74 +37,168 @@ extern "C" ssize_t readv(int fd, const struct iovec *iov, int cnt) {
   return syscall(SYS_readv, fd, iov, cnt);
 }
 
-enum K { SEND, ENABLE, DISABLE, PEER_READ, PEER_WRITE, PEER_CLOSE, PASS, DEV_WCLAMP, DEV_WEAGAIN, DEV_RCLAMP };
-static const char *kN[] = {"send", "enable", "disable", "peer-read", "peer-write", "peer-close", "pass", "DEV:next-write-1-byte", "DEV:next-write-EAGAIN", "DEV:next-readv-1-byte"};
+enum K { SEND, ENABLE, DISABLE, PEER_READ, PEER_WRITE, PEER_CLOSE, PASS, BIND, UNBIND, DEV_WCLAMP, DEV_WEAGAIN, DEV_RCLAMP };
+static const char *kN[] = {"send", "enable", "disable", "peer-read", "peer-write", "peer-close", "pass", "bind", "unbind", "DEV:next-write-1-byte", "DEV:next-write-EAGAIN", "DEV:next-readv-1-byte"};
 struct Op { int k, a; };
 enum Policy { ALL, ONE, NONE_, ALL_BUT_ONE };
+enum CbMode { CB_RECORD, CB_COMPLETE_SENDS, CB_ECHO, CB_STOP };
+struct Cfg { std::string eng; bool tcp = false; size_t thr = 0; int pol = 0, cb = 0, ev = 3; bool bindops = false; };
+
+struct World;
+struct Receiver : network::ByteStream {          // what a bound descriptor forwards to
+  World *w = nullptr;
+  void setReceiveCallback(const ReceiveCallback &, size_t) override {}
+  void setSendCompleteCallback(const SendCompleteCallback &) override {}
+  bool send(const void *p, size_t n) override;
+  void bind(network::ByteStream *) override {}
+  void unbind() override {}
+  util::Buffer *getReceiveBuffer() override { return nullptr; }
+};
 
 struct World {
-  event::Loop *loop; int sv[2]; network::BufferedFd *bfd = nullptr; network::TcpConnection *tcp = nullptr; bool tcp_mode;
-  std::string sent, peer_got, peer_wrote; size_t consumed = 0; bool peer_closed = false, running = false; int zero_cb = 0, complete_cb = 0; std::string viol;
-  uint8_t sctr = 1, pctr = 101; size_t threshold; int policy; bool dead = false;   // dead: connection object gone after disconnect
+  event::Loop *loop; int sv[2]; network::BufferedFd *bfd = nullptr; network::TcpConnection *tcp = nullptr; bool tcp_mode; Receiver rcv;
+  // reference model: sent = every byte handed to send() that was accepted; peer_wrote = every byte the peer wrote; consumed = bytes of peer_wrote
+  // delivered so far (taken by the receive callback or forwarded to the bound receiver); presented_hi = bytes of peer_wrote shown at least once
+  std::string sent, peer_got, peer_wrote; size_t consumed = 0, presented_hi = 0; bool peer_closed = false, running = false, bound = false; int zero_cb = 0, complete_cb = 0; std::string viol;
+  uint8_t sctr = 1, pctr = 101; size_t threshold; int policy, cb; bool can_read = true, can_write = true;
+  bool dead = false;          // connection object gone (peer close reported, or the user disconnected)
+  int sc_sends = 0; bool stop_fired = false;
   network::BufferedFd *B() { return tcp_mode ? tcp->sp_buffered_fd_ : bfd; }
+  size_t pw_at_bind = 0;      // peer_wrote.size() when the receiver was bound: only a byte written after that is certain to be read while bound
+  // bytes that must have been shown by the time everything in the kernel has been read: unbound - the unconsumed bytes reach the threshold;
+  // bound - a byte arrived after the bind (then everything undelivered is forwarded with it)
+  bool unseen_due() const { return presented_hi < peer_wrote.size() && (bound ? peer_wrote.size() > pw_at_bind : peer_wrote.size() - consumed >= threshold); }
+  void do_send(const std::string &d) {
+    sent += d; bool ok = tcp_mode ? tcp->send(d.data(), d.size()) : bfd->send(d.data(), d.size());
+    if (!ok) { sent.resize(sent.size() - d.size()); if (can_write) viol = "send-returned-false"; }     // refused bytes were never handed over
+  }
   void on_recv(util::Buffer &b) {
+    if (bound) { viol = "receive-callback-while-a-receiver-is-bound"; return; }
     size_t n = b.readableSize(); if (n < threshold) { viol = "receive-callback-below-threshold"; return; }
     if (consumed + n > peer_wrote.size() || memcmp(b.readableBegin(), peer_wrote.data() + consumed, n) != 0) { viol = "receive-callback-content-not-the-unconsumed-bytes-in-order"; return; }
+    if (consumed + n > presented_hi) presented_hi = consumed + n;
     size_t take = policy == ALL ? n : policy == ONE ? 1 : policy == NONE_ ? 0 : n - 1; if (take > n) take = n;
+    std::string taken((const char *)b.readableBegin(), take);
     b.hasRead(take); consumed += take;
+    if (cb == CB_ECHO && take > 0 && !dead) do_send(taken);                           // re-entrant send() from the receive callback
+    if (cb == CB_STOP && !stop_fired) { stop_fired = true;                            // re-entrant pause / disconnect from the receive callback
+      if (tcp_mode) { tcp->disconnect(); dead = true; } else { bfd->disable(); running = false; } }
+  }
+  void on_forward(const void *p, size_t n) {
+    if (!bound) { viol = "bytes-forwarded-to-a-receiver-that-is-not-bound"; return; }
+    if (consumed + n > peer_wrote.size() || memcmp(p, peer_wrote.data() + consumed, n) != 0) { viol = "forwarded-bytes-are-not-the-undelivered-bytes-in-order"; return; }
+    consumed += n; if (consumed > presented_hi) presented_hi = consumed;
   }
   void on_zero() { zero_cb++; if (zero_cb > 1) viol = "peer-close-reported-more-than-once";
+    if (viol.empty() && unseen_due()) viol = "peer-close-reported-before-all-preceding-data-was-presented";          // by the model
     network::BufferedFd *x = B(); size_t inbuf = x ? x->recv_buff_.readableSize() : 0;
-    if (!tcp_mode) { if (consumed + inbuf != peer_wrote.size()) viol = "peer-close-reported-before-all-preceding-data-was-presented"; bfd->disable(); running = false; } }
-  void on_disconnected() { zero_cb++; if (zero_cb > 1) viol = "disconnect-reported-more-than-once"; dead = true; }
+    if (!tcp_mode) { if (viol.empty() && consumed + inbuf != peer_wrote.size()) viol = "peer-close-reported-before-all-preceding-data-was-read"; bfd->disable(); running = false; } }
+  void on_disconnected() { zero_cb++; if (zero_cb > 1) viol = "disconnect-reported-more-than-once";
+    if (viol.empty() && unseen_due()) viol = "disconnect-reported-before-all-preceding-data-was-presented";
+    if (viol.empty() && !peer_closed) viol = "disconnect-reported-although-the-peer-did-not-close";
+    dead = true; }
   void on_complete() { complete_cb++; network::BufferedFd *x = B(); if (!x) return;
     if (x->send_buff_.readableSize() != 0) viol = "send-complete-while-send-buffer-not-empty";
-    else if ((size_t)fd_written != sent.size()) viol = "send-complete-before-everything-was-written"; }
+    else if ((size_t)fd_written != sent.size()) viol = "send-complete-before-everything-was-written";
+    if (viol.empty() && cb == CB_COMPLETE_SENDS && sc_sends < 2 && !dead) { sc_sends++; std::string d; for (int i = 0; i < 2; i++) d.push_back((char)sctr++); do_send(d); } }   // re-entrant send() from send-complete
   void pass() { loop->runNext([] {}); loop->runLoop(event::Loop::Mode::kOnce); }
   void peer_read(size_t k) { char buf[4096]; if (k > sizeof buf) k = sizeof buf; ssize_t n = recv(sv[1], buf, k, MSG_DONTWAIT); if (n > 0) { peer_got.append(buf, (size_t)n);
       if (peer_got.size() > sent.size() || memcmp(peer_got.data(), sent.data(), peer_got.size()) != 0) viol = "peer-received-bytes-are-not-a-prefix-of-the-sent-stream"; } }
+  bool peer_write(int n) { std::string d; for (int i = 0; i < n; i++) d.push_back((char)pctr++); ssize_t r = syscall(SYS_write, sv[1], d.data(), d.size()); if (r == (ssize_t)d.size()) { peer_wrote += d; return true; } pctr -= (uint8_t)n; return false; }
+  // which operations do something in the current model state (the menu offers only these; the others would leave every state component unchanged)
+  bool enabled(const Op &o) const {
+    switch (o.k) {
+      case SEND: return !dead && sent.size() + o.a <= 14;
+      case ENABLE: return !tcp_mode && zero_cb == 0 && !running;      // no in-tree user re-enables a descriptor after its peer closed
+      case DISABLE: return tcp_mode ? !dead : running;
+      case PEER_READ: return (size_t)fd_written > peer_got.size();    // something is waiting in the kernel for the peer
+      case PEER_WRITE: return !peer_closed && peer_wrote.size() + o.a <= 9;
+      case PEER_CLOSE: return !peer_closed;
+      case PASS: return true;
+      case BIND: return !dead && !bound;
+      case UNBIND: return !dead && bound;
+      case DEV_WCLAMP: return dev_write_clamp != 1;
+      case DEV_WEAGAIN: return !dev_write_eagain;
+      case DEV_RCLAMP: return dev_readv_clamp != 1; }
+    return false; }
+  void install_receive_cb() { World *pw = this; auto f = [pw](util::Buffer &b) { pw->on_recv(b); }; if (tcp_mode) tcp->setReceiveCallback(f, threshold); else bfd->setReceiveCallback(f, threshold); }
 };
+bool Receiver::send(const void *p, size_t n) { w->on_forward(p, n); return true; }
 
-static std::string run_hist(const std::string &eng, bool tcp_mode, size_t threshold, int policy, const std::vector<Op> &h, std::string &viol) {
-  World w; w.tcp_mode = tcp_mode; w.threshold = threshold; w.policy = policy; w.loop = event::Loop::New(eng);
+static std::vector<Op> all_ops(const Cfg &cfg) { std::vector<Op> m;
+  for (int n : {1, 2, 5}) m.push_back({SEND, n}); if (!cfg.tcp) m.push_back({ENABLE, 0}); m.push_back({DISABLE, 0});      // tcp mode: "disable" = TcpConnection::disconnect()
+  m.push_back({PEER_READ, 1}); m.push_back({PEER_READ, 64}); m.push_back({PEER_WRITE, 1}); m.push_back({PEER_WRITE, 3}); m.push_back({PEER_CLOSE, 0}); m.push_back({PASS, 0});
+  if (cfg.bindops) { m.push_back({BIND, 0}); m.push_back({UNBIND, 0}); }
+  m.push_back({DEV_WCLAMP, 0}); m.push_back({DEV_WEAGAIN, 0}); m.push_back({DEV_RCLAMP, 0}); return m; }
+static std::vector<Op> g_ops;
+static std::map<std::string, uint32_t> g_enabled;       // history -> bitmask over g_ops of the operations enabled in the state it reaches
+static std::string hkey(const std::vector<Op> &h) { std::string s; for (auto &o : h) { s.push_back((char)('A' + o.k)); s.push_back((char)('0' + o.a)); } return s; }
+
+static std::string run_hist(const Cfg &cfg, const std::vector<Op> &h, std::string &viol) {
+  const bool tcp_mode = cfg.tcp;
+  World w; w.tcp_mode = tcp_mode; w.threshold = cfg.thr; w.policy = cfg.pol; w.cb = cfg.cb; w.loop = event::Loop::New(cfg.eng); w.rcv.w = &w;
+  w.can_read = tcp_mode || (cfg.ev & network::BufferedFd::kReadOnly); w.can_write = tcp_mode || (cfg.ev & network::BufferedFd::kWriteOnly);
   socketpair(AF_UNIX, SOCK_STREAM | SOCK_NONBLOCK, 0, w.sv); inj_fd = w.sv[0]; fd_written = 0; dev_write_clamp = -1; dev_write_eagain = false; dev_readv_clamp = -1;
   World *pw = &w;
   if (tcp_mode) { w.tcp = new network::TcpConnection(w.loop, network::SocketFd(w.sv[0]), network::SockAddr()); w.running = true;
-    w.tcp->setReceiveCallback([pw](util::Buffer &b) { pw->on_recv(b); }, threshold); w.tcp->setSendCompleteCallback([pw] { pw->on_complete(); }); w.tcp->setDisconnectedCallback([pw] { pw->on_disconnected(); }); }
-  else { w.bfd = new network::BufferedFd(w.loop); w.bfd->initialize(util::Fd(w.sv[0]));
-    w.bfd->setReceiveCallback([pw](util::Buffer &b) { pw->on_recv(b); }, threshold); w.bfd->setSendCompleteCallback([pw] { pw->on_complete(); }); w.bfd->setReadZeroCallback([pw] { pw->on_zero(); }); }
+    w.install_receive_cb(); w.tcp->setSendCompleteCallback([pw] { pw->on_complete(); }); w.tcp->setDisconnectedCallback([pw] { pw->on_disconnected(); }); }
+  else { w.bfd = new network::BufferedFd(w.loop); if (!w.bfd->initialize(util::Fd(w.sv[0]), (short)cfg.ev)) { viol = "harness-initialize-failed"; return "x"; }
+    w.install_receive_cb(); w.bfd->setSendCompleteCallback([pw] { pw->on_complete(); }); w.bfd->setReadZeroCallback([pw] { pw->on_zero(); }); }
   for (auto &o : h) { if (!w.viol.empty()) break;
+    if (!w.enabled(o)) continue;                          // (only reachable when a history is replayed by hand)
     switch (o.k) {
-      case SEND: if (!w.dead && w.sent.size() + o.a <= 14) { std::string d; for (int i = 0; i < o.a; i++) d.push_back((char)w.sctr++); w.sent += d; bool ok = tcp_mode ? w.tcp->send(d.data(), d.size()) : w.bfd->send(d.data(), d.size()); if (!ok) w.viol = "send-returned-false"; } break;
-      case ENABLE: if (!tcp_mode && w.zero_cb == 0) { w.bfd->enable(); w.running = true; } break;   // no in-tree user re-enables a descriptor after its peer closed
-      case DISABLE: if (!tcp_mode) { w.bfd->disable(); w.running = false; } break;
+      case SEND: if (!w.dead && w.sent.size() + o.a <= 14) { std::string d; for (int i = 0; i < o.a; i++) d.push_back((char)w.sctr++); w.do_send(d); } break;
+      case ENABLE: if (!tcp_mode && w.zero_cb == 0) { w.bfd->enable(); w.running = true; } break;
+      case DISABLE: if (!tcp_mode) { w.bfd->disable(); w.running = false; }
+                    else if (!w.dead) { if (!w.tcp->disconnect()) w.viol = "disconnect-of-live-connection-returned-false"; w.dead = true; } break;   // user-side disconnect: nothing is demanded of queued bytes afterwards
       case PEER_READ: w.peer_read((size_t)o.a); break;
-      case PEER_WRITE: if (!w.peer_closed && w.peer_wrote.size() + o.a <= 9) { std::string d; for (int i = 0; i < o.a; i++) d.push_back((char)w.pctr++); ssize_t r = syscall(SYS_write, w.sv[1], d.data(), d.size()); if (r == (ssize_t)d.size()) w.peer_wrote += d; } break;
+      case PEER_WRITE: if (!w.peer_closed && w.peer_wrote.size() + o.a <= 9) w.peer_write(o.a); break;
       case PEER_CLOSE: if (!w.peer_closed) { /* drain what the peer can still read first so close does not turn into a reset */ w.peer_read(4096); shutdown(w.sv[1], SHUT_WR); w.peer_closed = true; } break;
       case PASS: w.pass(); break;
+      case BIND: if (!w.dead && !w.bound) { if (tcp_mode) w.tcp->bind(&w.rcv); else w.bfd->bind(&w.rcv); w.bound = true; w.pw_at_bind = w.peer_wrote.size(); } break;
+      case UNBIND: if (!w.dead && w.bound) { if (tcp_mode) w.tcp->unbind(); else w.bfd->unbind(); w.bound = false; } break;
       case DEV_WCLAMP: dev_write_clamp = 1; break;
       case DEV_WEAGAIN: dev_write_eagain = true; break;
       case DEV_RCLAMP: dev_readv_clamp = 1; break; }
   }
-  // canonical state (before the closing run-to-quiescence)
-  std::string c; { char b[200]; network::BufferedFd *x = w.B();
-    snprintf(b, sizeof b, "s%zu r%zu w%d st%d|sent%zu got%zu fdw%lld|pw%zu cons%zu|pc%d z%d run%d dead%d|dv%d%d%d|cc%d", x ? x->send_buff_.readableSize() : 0, x ? x->recv_buff_.readableSize() : 0,
-             x && x->sp_write_event_ ? (int)x->sp_write_event_->isEnabled() : 0, x ? (int)x->state_ : 9, w.sent.size(), w.peer_got.size(), fd_written, w.peer_wrote.size(), w.consumed, (int)w.peer_closed, w.zero_cb, (int)w.running, (int)w.dead,
-             dev_write_clamp, (int)dev_write_eagain, dev_readv_clamp, w.complete_cb > 0); c = b; }
+  // canonical state (before the closing run-to-quiescence): both buffers with their geometry (read index / capacity select the
+  // fits / memmove / grow branch of the next append and the iovec split of the next read), event and life-cycle state, model counters
+  std::string c; { char b[320]; network::BufferedFd *x = w.B();
+    snprintf(b, sizeof b, "s%zu@%zu/%zu r%zu@%zu/%zu w%d st%d|sent%zu got%zu fdw%lld|pw%zu cons%zu ph%d|pc%d z%d run%d dead%d bd%d%d|dv%d%d%d|cc%d sc%d sf%d",
+             x ? x->send_buff_.readableSize() : 0, x ? x->send_buff_.read_index_ : 0, x ? x->send_buff_.buffer_size_ : 0,
+             x ? x->recv_buff_.readableSize() : 0, x ? x->recv_buff_.read_index_ : 0, x ? x->recv_buff_.buffer_size_ : 0,
+             x && x->sp_write_event_ ? (int)x->sp_write_event_->isEnabled() : 0, x ? (int)x->state_ : 9, w.sent.size(), w.peer_got.size(), fd_written, w.peer_wrote.size(), w.consumed, (int)(w.presented_hi == w.peer_wrote.size()),
+             (int)w.peer_closed, w.zero_cb, (int)w.running, (int)w.dead, (int)w.bound, (int)(w.bound && w.peer_wrote.size() > w.pw_at_bind), dev_write_clamp, (int)dev_write_eagain, dev_readv_clamp, w.complete_cb > 0, w.sc_sends, (int)w.stop_fired); c = b; }
+  { uint32_t mask = 0; for (size_t q = 0; q < g_ops.size(); q++) if (w.enabled(g_ops[q])) mask |= 1u << q; g_enabled[hkey(h)] = mask; }
   // ---- liveness part of the oracle: let the loop run to quiescence with the peer draining; then everything must have arrived
   if (w.viol.empty() && w.running && !w.dead) {
     int idle = 0; size_t last = (size_t)-1;
-    for (int i = 0; i < 60 && idle < 3 && w.viol.empty(); i++) { w.pass(); w.peer_read(4096); network::BufferedFd *x = w.B(); size_t prog = w.peer_got.size() * 1000 + (x ? x->recv_buff_.readableSize() : 0) + w.consumed * 7 + (size_t)w.zero_cb * 100000; if (prog == last) idle++; else idle = 0; last = prog; if (w.dead) break; }
+    for (int i = 0; i < 60 && idle < 3 && w.viol.empty(); i++) { w.pass(); w.peer_read(4096); network::BufferedFd *x = w.B(); size_t prog = w.peer_got.size() * 1000 + (x ? x->recv_buff_.readableSize() : 0) + w.consumed * 7 + (size_t)w.zero_cb * 100000 + w.sent.size() * 31; if (prog == last) idle++; else idle = 0; last = prog; if (w.dead || !w.running) break; }
     if (w.viol.empty() && w.peer_got != w.sent && !w.dead && w.running) w.viol = "sent-bytes-never-reach-the-peer (got " + std::to_string(w.peer_got.size()) + " of " + std::to_string(w.sent.size()) + ")";
-    network::BufferedFd *x = w.B();
-    if (w.viol.empty() && x && w.consumed + x->recv_buff_.readableSize() != w.peer_wrote.size()) w.viol = "received-bytes-lost-or-duplicated";
-    if (w.viol.empty() && w.peer_closed && w.zero_cb != 1) w.viol = "peer-close-reported-" + std::to_string(w.zero_cb) + "-times";
+    if (w.can_read && !w.dead && w.running) {
+      // by the model alone: everything the peer wrote has been shown (callback) or forwarded (receiver) unless it is still below the threshold
+      if (w.viol.empty() && w.unseen_due()) w.viol = "received-bytes-never-presented (shown " + std::to_string(w.presented_hi) + " of " + std::to_string(w.peer_wrote.size()) + ")";
+      network::BufferedFd *x = w.B();
+      if (w.viol.empty() && x && w.consumed + x->recv_buff_.readableSize() != w.peer_wrote.size()) w.viol = "received-bytes-lost-or-duplicated";
+      // flush: the callback is replaced on the live object by one with threshold 0 that takes everything, and the peer writes one more byte:
+      // every byte left unconsumed so far must come again, in order, together with the new one (callback) / be forwarded (bound receiver)
+      if (w.viol.empty() && !w.peer_closed && w.zero_cb == 0) {
+        w.threshold = 0; w.policy = ALL; w.cb = CB_RECORD; w.install_receive_cb();
+        if (w.peer_write(1)) { for (int i = 0; i < 3 && w.viol.empty(); i++) w.pass();
+          if (w.viol.empty() && w.consumed != w.peer_wrote.size()) w.viol = "unconsumed-bytes-not-delivered-again-with-later-data (delivered " + std::to_string(w.consumed) + " of " + std::to_string(w.peer_wrote.size()) + ")"; }
+      }
+    }
+    const bool user_stopped = w.zero_cb == 0 && (w.dead || !w.running);      // the user's own callback paused / disconnected during the closing run: nothing more is due
+    if (w.viol.empty() && w.can_read && w.peer_closed && w.zero_cb != 1 && !user_stopped) w.viol = "peer-close-reported-" + std::to_string(w.zero_cb) + "-times";
   }
+  if (w.viol.empty() && !w.can_read && (w.consumed || w.presented_hi || w.zero_cb)) w.viol = "write-only-descriptor-delivered-received-data";
   viol = w.viol; inj_fd = -1;
   if (tcp_mode) delete w.tcp; else delete w.bfd;
   w.pass(); delete w.loop; close(w.sv[1]); if (tcp_mode) { /* fd owned by the connection */ }
   return c;
 }
+
+static void pass(event::Loop *loop) { loop->runNext([] {}); loop->runLoop(event::Loop::Mode::kOnce); }
 
 static int bulk(const std::string &eng) {       // engine I lane: real kernel back-pressure, large sends
   size_t cases = 0;
@@ -106,33 +211,87 @@ static int bulk(const std::string &eng) {       // engine I lane: real kernel ba
     for (size_t off = 0; off < total; off += chunk) { size_t n = std::min(chunk, total - off); bfd->send(data.data() + off, n); sent += n; }
     if (!pre_enable) bfd->enable();
     std::string got; std::vector<char> buf(step); int idle = 0;
-    for (int i = 0; i < 100000 && got.size() < total && idle < 50; i++) { loop->runNext([] {}); loop->runLoop(event::Loop::Mode::kOnce); ssize_t n = recv(sv[1], buf.data(), step, MSG_DONTWAIT); if (n > 0) { got.append(buf.data(), (size_t)n); idle = 0; } else idle++; }
-    for (int i = 0; i < 3; i++) { loop->runNext([] {}); loop->runLoop(event::Loop::Mode::kOnce); }
+    for (int i = 0; i < 100000 && got.size() < total && idle < 50; i++) { pass(loop); ssize_t n = recv(sv[1], buf.data(), step, MSG_DONTWAIT); if (n > 0) { got.append(buf.data(), (size_t)n); idle = 0; } else idle++; }
+    for (int i = 0; i < 3; i++) pass(loop);
     cases++; char desc[128]; snprintf(desc, sizeof desc, "bulk %s total=%zu chunk=%zu peer-step=%zu enable-%s", eng.c_str(), total, chunk, step, pre_enable ? "before-send" : "after-send");
     if (got != data) printf("@VIOL sig=bulk-stream-not-preserved(got_%zu_of_%zu) :: %s\n", got.size(), total, desc);
     else if (early) printf("@VIOL sig=bulk-send-complete-before-everything-written :: %s\n", desc);
     else if (complete < 1) printf("@VIOL sig=bulk-send-complete-never-reported :: %s\n", desc);
     if (cases <= 2) printf("@SAMPLE %s => received %zu bytes, send-complete x%d\n", desc, got.size(), complete);
-    inj_fd = -1; delete bfd; loop->runNext([] {}); loop->runLoop(event::Loop::Mode::kOnce); delete loop; close(sv[1]);
+    inj_fd = -1; delete bfd; pass(loop); delete loop; close(sv[1]);
   }
+  printf("@STAT states=%zu transitions=%zu executions=%zu\n", cases, cases, cases); return 0;
+}
+
+// engine I lane, receive direction with real sizes: the peer writes `total` bytes in steps (as much as the kernel takes each round); the
+// descriptor either presents them to a callback (threshold x consumption policy) or forwards them (bind) to a SECOND real BufferedFd whose
+// own peer reads slowly through a minimum-size kernel buffer. Covers a full 1024-byte overflow area, several reads per callback and growth
+// of the receive buffer while it holds unconsumed data. Oracle: the same reference stream as the history lane.
+static int bulk_recv(const std::string &eng) {
+  size_t cases = 0; double t_end = hx::deadline_from_env(600); bool capped = false;
+  for (size_t total : {1024ul, 1025ul, 3000ul, 65536ul, 1048576ul}) for (size_t thr : {0ul, 1500ul}) for (int pre_enable = 0; pre_enable < 2; pre_enable++) for (int variant = 0; variant < 4; variant++) for (int big_step = 0; big_step < 2; big_step++) {
+    if (hx::now_s() > t_end) { capped = true; continue; }
+    const bool fwd = variant == 3; const int pol = variant == 0 ? ALL : variant == 1 ? ALL_BUT_ONE : NONE_;
+    const size_t step = big_step ? 65536 : total / 13 + 1;
+    event::Loop *loop = event::Loop::New(eng); int sv[2], sv2[2] = {-1, -1}; socketpair(AF_UNIX, SOCK_STREAM | SOCK_NONBLOCK, 0, sv);
+    std::string data(total, 0); for (size_t i = 0; i < total; i++) data[i] = (char)((i * 167 + (i >> 7) + 3) & 0xff);
+    auto *bfd = new network::BufferedFd(loop); bfd->initialize(util::Fd(sv[0]), fwd ? network::BufferedFd::kReadOnly : network::BufferedFd::kReadWrite);
+    network::BufferedFd *out = nullptr; std::string viol; size_t consumed = 0, presented_hi = 0, wrote = 0; int zero = 0, callbacks = 0;
+    bfd->setReceiveCallback([&](util::Buffer &b) { callbacks++; size_t n = b.readableSize();
+      if (fwd) { viol = "bulk-receive-callback-while-a-receiver-is-bound"; return; }
+      if (n < thr) { viol = "bulk-receive-callback-below-threshold"; return; }
+      if (consumed + n > wrote || memcmp(b.readableBegin(), data.data() + consumed, n) != 0) { viol = "bulk-receive-callback-content-not-the-unconsumed-bytes-in-order"; return; }
+      presented_hi = std::max(presented_hi, consumed + n);
+      size_t take = pol == ALL ? n : pol == NONE_ ? 0 : n - 1; b.hasRead(take); consumed += take; }, thr);
+    bfd->setReadZeroCallback([&] { zero++; if (presented_hi < wrote && wrote - consumed >= thr && !fwd) viol = "bulk-peer-close-reported-before-all-preceding-data-was-presented"; bfd->disable(); });
+    if (fwd) { socketpair(AF_UNIX, SOCK_STREAM | SOCK_NONBLOCK, 0, sv2); int sz = 4096; setsockopt(sv2[0], SOL_SOCKET, SO_SNDBUF, &sz, sizeof sz);
+      out = new network::BufferedFd(loop); out->initialize(util::Fd(sv2[0]), network::BufferedFd::kWriteOnly); out->enable(); bfd->bind(out); }
+    if (pre_enable) bfd->enable();
+    std::string got2; std::vector<char> buf(8192); bool enabled = pre_enable; int idle = 0; size_t last_seen = (size_t)-1;
+    for (int i = 0; i < 200000 && viol.empty() && idle < 50; i++) {
+      bool progress = false;
+      if (wrote < total) { ssize_t r = syscall(SYS_write, sv[1], data.data() + wrote, std::min(step, total - wrote)); if (r > 0) { wrote += (size_t)r; progress = true; } }
+      if (!enabled && (wrote >= total || i >= 2)) { bfd->enable(); enabled = true; progress = true; }      // late enable: data is already waiting in the kernel
+      pass(loop);
+      if (fwd) { ssize_t n = recv(sv2[1], buf.data(), buf.size(), MSG_DONTWAIT); if (n > 0) { got2.append(buf.data(), (size_t)n); progress = true;
+          if (got2.size() > wrote || memcmp(got2.data() + got2.size() - n, data.data() + got2.size() - n, (size_t)n) != 0) viol = "bulk-forwarded-bytes-are-not-a-prefix-of-the-received-stream"; } }
+      size_t seen = fwd ? got2.size() : presented_hi; if (seen != last_seen) progress = true; last_seen = seen;
+      idle = progress ? 0 : idle + 1;
+      if (wrote >= total && (fwd ? got2.size() >= total : (presented_hi >= total || total - consumed < thr)) && idle >= 2) break;
+    }
+    if (viol.empty()) { if (fwd) { if (got2 != data) viol = "bulk-forwarded-stream-not-preserved(got_" + std::to_string(got2.size()) + "_of_" + std::to_string(total) + ")"; }
+      else if (presented_hi < total && total - consumed >= thr) viol = "bulk-received-bytes-never-presented(shown_" + std::to_string(presented_hi) + "_of_" + std::to_string(total) + ")"; }
+    if (viol.empty()) { shutdown(sv[1], SHUT_WR); for (int i = 0; i < 4; i++) pass(loop); if (zero != 1) viol = "bulk-peer-close-reported-" + std::to_string(zero) + "-times"; }
+    cases++; char desc[192]; snprintf(desc, sizeof desc, "bulkrecv %s total=%zu peer-step=%zu threshold=%zu %s enable-%s", eng.c_str(), total, step, thr,
+                                     fwd ? "bound-to-second-BufferedFd(SO_SNDBUF=4096,slow-reader)" : pol == ALL ? "callback-takes-all" : pol == NONE_ ? "callback-takes-nothing" : "callback-takes-all-but-1", pre_enable ? "before-data" : "after-data");
+    if (!viol.empty()) printf("@VIOL sig=%s :: %s\n", viol.c_str(), desc);
+    if (cases <= 2 || (fwd && cases < 12)) printf("@SAMPLE %s => %d callbacks, delivered %zu, forwarded %zu, peer-close x%d\n", desc, callbacks, consumed, got2.size(), zero);
+    if (fwd) bfd->unbind();
+    delete bfd; delete out; pass(loop); delete loop; close(sv[1]); if (sv2[1] >= 0) close(sv2[1]);
+  }
+  if (capped) printf("@CAP bulkrecv %s: deadline reached after %zu cases\n", eng.c_str(), cases);
   printf("@STAT states=%zu transitions=%zu executions=%zu\n", cases, cases, cases); return 0;
 }
 
 int main(int argc, char **argv) {
   signal(SIGPIPE, SIG_IGN); hx::install_crash_reporter("C06-crash");
-  std::string what = argc > 1 ? argv[1] : "hist", eng = argc > 2 ? argv[2] : "epoll";
-  if (what == "bulk") return bulk(eng);
-  size_t depth = argc > 3 ? atoi(argv[3]) : 5; bool tcp = argc > 4 && !strcmp(argv[4], "tcp"); size_t thr = argc > 5 ? atoi(argv[5]) : 0; int pol = argc > 6 ? atoi(argv[6]) : 0; int maxdev = argc > 7 ? atoi(argv[7]) : 1;
-  hx::Explorer<Op> ex; char nm[96]; snprintf(nm, sizeof nm, "%s-%s-thr%zu-pol%d", eng.c_str(), tcp ? "tcp" : "bfd", thr, pol); ex.name = nm; ex.deadline_s = hx::deadline_from_env(600);
+  std::string what = argc > 1 ? argv[1] : "hist"; Cfg cfg; cfg.eng = argc > 2 ? argv[2] : "epoll";
+  if (what == "bulk") return bulk(cfg.eng);
+  if (what == "bulkrecv") return bulk_recv(cfg.eng);
+  size_t depth = argc > 3 ? atoi(argv[3]) : 5; cfg.tcp = argc > 4 && !strcmp(argv[4], "tcp"); cfg.thr = argc > 5 ? atoi(argv[5]) : 0; cfg.pol = argc > 6 ? atoi(argv[6]) : 0; int maxdev = argc > 7 ? atoi(argv[7]) : 1;
+  hx::Explorer<Op> ex;
   if (argc > 9) { ex.part = atoi(argv[8]); ex.nparts = atoi(argv[9]); }
+  for (int i = 10; i < argc; i++) { if (!strncmp(argv[i], "cb=", 3)) cfg.cb = atoi(argv[i] + 3); else if (!strncmp(argv[i], "ev=", 3)) cfg.ev = atoi(argv[i] + 3); else if (!strncmp(argv[i], "bind=", 5)) cfg.bindops = atoi(argv[i] + 5) != 0; }
+  const bool tcp = cfg.tcp;
+  char nm[128]; snprintf(nm, sizeof nm, "%s-%s-thr%zu-pol%d-cb%d-ev%d-bind%d", cfg.eng.c_str(), tcp ? "tcp" : "bfd", cfg.thr, cfg.pol, cfg.cb, cfg.ev, (int)cfg.bindops); ex.name = nm; ex.deadline_s = hx::deadline_from_env(600);
   ex.show = [](const Op &o) { char b[48]; if (o.k == SEND || o.k == PEER_READ || o.k == PEER_WRITE) snprintf(b, 48, "%s(%d)", kN[o.k], o.a); else snprintf(b, 48, "%s", kN[o.k]); return std::string(b); };
+  g_ops = all_ops(cfg);
   ex.menu = [&](const std::vector<Op> &h) { std::vector<Op> m; int dev = 0; for (auto &o : h) if (o.k >= DEV_WCLAMP) dev++;
-    for (int n : {1, 2, 5}) m.push_back({SEND, n}); if (!tcp) { m.push_back({ENABLE, 0}); m.push_back({DISABLE, 0}); }
-    m.push_back({PEER_READ, 1}); m.push_back({PEER_READ, 64}); m.push_back({PEER_WRITE, 1}); m.push_back({PEER_WRITE, 3}); m.push_back({PEER_CLOSE, 0}); m.push_back({PASS, 0});
-    if (dev < maxdev) { m.push_back({DEV_WCLAMP, 0}); m.push_back({DEV_WEAGAIN, 0}); m.push_back({DEV_RCLAMP, 0}); }
+    auto it = g_enabled.find(hkey(h)); uint32_t mask = it == g_enabled.end() ? 0xffffffffu : it->second;
+    for (size_t q = 0; q < g_ops.size(); q++) if ((mask & (1u << q)) && (g_ops[q].k < DEV_WCLAMP || dev < maxdev)) m.push_back(g_ops[q]);
     return m; };
   ex.sig = [](const std::string &v) { return v.substr(0, v.find(' ')); };
-  ex.run = [&](const std::vector<Op> &h, std::string &viol) { return run_hist(eng, tcp, thr, pol, h, viol); };
+  ex.run = [&](const std::vector<Op> &h, std::string &viol) { return run_hist(cfg, h, viol); };
   ex.explore(depth);
   return 0;
 }
